@@ -36,7 +36,16 @@
    configuration), max_incoming_bytes / max_outgoing_bytes (flow control),
    file descriptors, timing (a reply timeout is an event), the transient state
    between a callee's disconnection and the zero-interval expiry of the calls
-   it had not answered (folded into the disconnection step). *)
+   it had not answered (folded into the disconnection step).
+
+   Authentication is an event of its own ([Auth]) because the configured limit
+   on "incomplete" connections is about connections that have not said Hello,
+   authenticated or not.  Events other than Auth / Disconnect by a connection
+   that has not authenticated cannot be put on a socket; only Hello is guarded
+   here ([OFault]), the theorems hold for the other (inexpressible) histories too.
+   A method call may carry a REPLY_SERIAL header field; the bus then treats it
+   as an answer as well (bus_connections_check_reply) before it treats it as a
+   call. *)
 From DV Require Export Lib.Base Gen.Tables Registry.RegTypes Registry.Registry.
 From DV Require Wire.Message.
 Local Open Scope N_scope.
